@@ -108,10 +108,33 @@ package jsondb
 //@   protocol-only C11
 //@   loop 1 modifies s.sigMap
 
+// C18: the database file is replaced atomically: the content goes to a temporary file in the destination's directory,
+// the file is encoded, synced and closed without error before the one rename onto the destination, nothing else
+// writes the destination, and success is reported only after that rename succeeded.
 //@ func (*Scanner).SaveDatabase
 //@   noframe
 //@   include lockproto
-//@   protocol-only C11
+//@   protocol-only C11 C18
+//@   ghost tmpDir string
+//@   ghost encoded bool
+//@   ghost synced bool
+//@   ghost closed bool
+//@   ghost renamed bool
+//@   init encoded = false
+//@   init synced = false
+//@   init closed = false
+//@   init renamed = false
+//@   call os.CreateTemp update tmpDir = a0
+//@   call (*encoding/json.Encoder).Encode update encoded = result == nil
+//@   call (*os.File).Sync update synced = encoded && result == nil
+//@   call (*os.File).Close update closed = synced && result == nil
+//@   call os.Rename assert [C18.save] encoded && synced && closed && !renamed
+//@   call os.Rename assert [C18.save] tmpDir == dirOf(a1)
+//@   call os.Rename update renamed = result == nil
+//@   call os.WriteFile transitively assert [C18.save] false
+//@   call os.Create transitively assert [C18.save] false
+//@   call os.OpenFile transitively assert [C18.save] false
+//@   ensures [C18.save] result == nil ==> renamed
 
 //@ func (*Scanner).ScanCandidates
 //@   noframe
